@@ -18,6 +18,14 @@ func init() {
 }
 
 func genC02(g *Gen, n int) {
+	for _, s := range c02EscapedNewlineCases {
+		h := hx(s)
+		c20Emit(g, "modfile.parsesyntax "+h, true, "escaped-newline")
+		c20Emit(g, "modfile.format "+h, true, "escaped-newline")
+		c20Emit(g, "modfile.reformat "+h, true, "escaped-newline")
+		c20Emit(g, "modfile.parselax nofix "+h, true, "escaped-newline")
+		c20Emit(g, "modfile.parsework nofix "+h, true, "escaped-newline")
+	}
 	for _, s := range c20Boundary {
 		nt := c20Nontrivial(s)
 		h := hx(s)
@@ -235,6 +243,75 @@ func c02WorkWellFormed(f *modfile.WorkFile) bool {
 	return c02ReplacesOK(f.Replace)
 }
 
+// c02EscapedNewlineEOLComment: the structural trigger of the known finding
+// `format-not-idempotent-escaped-newline` — some Line has a double-quoted token containing a
+// backslash immediately followed by a newline (so the Line spans several source lines) AND there is
+// an end-of-line comment on that Line (after its last token, on its last source line).  Such a comment
+// cannot be attached to its own Line (assignComments skips multi-line nodes).
+func c02EscapedNewlineEOLComment(fs *modfile.FileSyntax) bool {
+	var suffix []modfile.Comment
+	var lines []*modfile.Line
+	add := func(c *modfile.Comments) {
+		for _, l := range [][]modfile.Comment{c.Before, c.Suffix, c.After} {
+			for _, com := range l {
+				if com.Suffix {
+					suffix = append(suffix, com)
+				}
+			}
+		}
+	}
+	add(&fs.Comments)
+	for _, st := range fs.Stmt {
+		add(st.Comment())
+		switch x := st.(type) {
+		case *modfile.Line:
+			lines = append(lines, x)
+		case *modfile.LineBlock:
+			add(&x.LParen.Comments)
+			add(&x.RParen.Comments)
+			for _, l := range x.Line {
+				add(&l.Comments)
+				lines = append(lines, l)
+			}
+		}
+	}
+	for _, l := range lines {
+		esc := false
+		for _, t := range l.Token {
+			if strings.HasPrefix(t, "\"") && strings.Contains(t, "\\\n") {
+				esc = true
+			}
+		}
+		if !esc || l.Start.Line == l.End.Line {
+			continue
+		}
+		for _, c := range suffix {
+			if c.Start.Line == l.End.Line && c.Start.Byte >= l.End.Byte {
+				return true
+			}
+		}
+	}
+	return false
+}
+
+const c02KnownEscapedNewline = "format-not-idempotent-escaped-newline"
+
+// c02EscapedNewlineCases: the known finding's input and variants (escaped newline in the first /
+// middle / last token, go.work verbs, inside a block, without comments).  Only the shapes where the
+// multi-line Line has an end-of-line comment AND follows a top-level statement are expected to fail.
+var c02EscapedNewlineCases = []string{
+	"a b // c1\nx \"p\\\nq\" // c2\n",
+	"a b // c1\n\"p\\\nq\" x // c2\n",
+	"a b // c1\nx \"p\\\nq\" y // c2\n",
+	"go 1.21 // c1\nuse \"p\\\nq\" // c2\n",
+	"a b\nx \"p\\\nq\" // c2\n",
+	"x \"p\\\nq\" // c2\ny // c3\n",
+	"r (\n\ta b // c1\n\tx \"p\\\nq\" // c2\n)\n",
+	"use (\n\t\"p\\\nq\" // c2\n)\n",
+	"a b // c1\nx \"p\\\nq\"\n",
+	"x \"p\\\nq\" ( // c2\n)\n",
+}
+
 func c02OracleInput(g *Gen, s, tag string) {
 	data := []byte(s)
 	h := hx(s)
@@ -248,16 +325,31 @@ func c02OracleInput(g *Gen, s, tag string) {
 				g.Fail("formatted output does not parse", fmt.Sprintf("input=%q output=%q err=%v", s, y, err), "modfile.reformat "+h)
 				return
 			}
+			// known finding: classified by the structure of the INPUT, never by the failure itself
+			known := c02EscapedNewlineEOLComment(t)
+			report := func(generic, info string, ops ...string) {
+				if !known {
+					g.Fail(generic, info, ops...)
+					return
+				}
+				// reported a few times only, so that it cannot crowd other failures out of the
+				// (bounded) failure list
+				if c20SigCount[c02KnownEscapedNewline]++; c20SigCount[c02KnownEscapedNewline] <= 3 {
+					g.Fail(c02KnownEscapedNewline, generic+": "+info, ops...)
+				} else {
+					g.Case("repeat:" + c02KnownEscapedNewline)
+				}
+			}
 			st1, co1 := c02Shape(t)
 			st2, co2 := c02Shape(t2)
 			if !c02Eq(st1, st2) {
-				g.Fail("formatted output parses to different statements/tokens", fmt.Sprintf("input=%q output=%q", s, y), "modfile.format "+h, "modfile.parsesyntax "+h, "modfile.parsesyntax "+hx(string(y)))
+				report("formatted output parses to different statements/tokens", fmt.Sprintf("input=%q output=%q", s, y), "modfile.format "+h, "modfile.parsesyntax "+h, "modfile.parsesyntax "+hx(string(y)))
 			}
 			if !c02Eq(co1, co2) {
-				g.Fail("formatted output parses to different comment texts", fmt.Sprintf("input=%q output=%q", s, y), "modfile.format "+h, "modfile.parsesyntax "+h, "modfile.parsesyntax "+hx(string(y)))
+				report("formatted output parses to different comment texts", fmt.Sprintf("input=%q output=%q", s, y), "modfile.format "+h, "modfile.parsesyntax "+h, "modfile.parsesyntax "+hx(string(y)))
 			}
 			if y2 := modfile.Format(t2); string(y2) != string(y) {
-				g.Fail("formatting is not idempotent", fmt.Sprintf("input=%q first=%q second=%q", s, y, y2), "modfile.format "+h, "modfile.reformat "+h)
+				report("formatting is not idempotent", fmt.Sprintf("input=%q first=%q second=%q", s, y, y2), "modfile.format "+h, "modfile.reformat "+h)
 			}
 		}
 		for _, fix := range []string{"nofix", "stub"} {
@@ -291,6 +383,9 @@ func c02OracleInput(g *Gen, s, tag string) {
 }
 
 func oracleC02(g *Gen, n int) {
+	for _, s := range c02EscapedNewlineCases {
+		c02OracleInput(g, s, "escaped-newline")
+	}
 	for _, s := range c20Boundary {
 		c02OracleInput(g, s, "boundary")
 	}
